@@ -451,6 +451,25 @@ var blocking = []struct{ name, src string }{
 	{"send-in-coroutine", "ready() local co = coroutine.wrap(function() ch:send(1) emit('co-returned') end) co() emit('returned') while true do emit('spin') end"},
 }
 
+// parkedInChannelLib: some goroutine of the dump is parked (not runnable) in a
+// channel operation issued by the interpreter's channel library. Cancelling
+// the context makes a goroutine that selects on ctx.Done() runnable at once,
+// so a goroutine still in that state after the cancel is one the cancel
+// cannot reach - however loaded the machine is.
+func parkedInChannelLib(dump string) bool {
+	for _, g := range strings.Split(dump, "\n\n") {
+		head := g
+		if i := strings.IndexByte(g, '\n'); i >= 0 {
+			head = g[:i]
+		}
+		parked := strings.Contains(head, "[chan send") || strings.Contains(head, "[chan receive") || strings.Contains(head, "[select")
+		if parked && (strings.Contains(g, "gopher-lua.channelSend") || strings.Contains(g, "gopher-lua.channelReceive") || strings.Contains(g, "gopher-lua.channelSelect")) {
+			return true
+		}
+	}
+	return false
+}
+
 func runBlocking(c *fw.Ctx, bi int, count bool) {
 	b := blocking[bi]
 	cs := Case{Prog: bi, Kind: "blocking", Src: b.src}
@@ -503,7 +522,7 @@ func runBlocking(c *fw.Ctx, bi int, count bool) {
 		buf := make([]byte, 1<<16)
 		n := runtime.Stack(buf, true)
 		st := string(buf[:n])
-		if strings.Contains(st, "chan send") || strings.Contains(st, "chan receive") || strings.Contains(st, "select") {
+		if parkedInChannelLib(st) {
 			c.Violation("the script stays parked in a channel operation after its context was cancelled (no other party can complete it): "+b.name, cs)
 		} else {
 			c.Inconclusive("blocking case did not return within the watchdog")
@@ -623,7 +642,7 @@ func runPool(c *fw.Ctx, round int, count bool) {
 	time.Sleep(5 * time.Millisecond)
 	cancel()
 	ended, wrong := 0, ""
-	timeout := time.After(20 * time.Second)
+	timeout := time.After(60 * time.Second)
 loop:
 	for ended < poolWorkers {
 		select {
@@ -644,7 +663,7 @@ loop:
 	case ended < poolWorkers:
 		buf := make([]byte, 1<<18)
 		st := string(buf[:runtime.Stack(buf, true)])
-		if len(jobs) == 0 && strings.Contains(st, "chan receive") {
+		if len(jobs) == 0 && parkedInChannelLib(st) {
 			c.Violation(fmt.Sprintf("%d of %d states sharing a buffered channel stay parked in receive after their context was cancelled (the channel is empty and nobody sends)", poolWorkers-ended, poolWorkers), cs)
 		} else {
 			c.Inconclusive("pool round did not finish within the watchdog")
